@@ -31,6 +31,7 @@ From Coq Require Import ZArith List Lia Ring Arith QArith.
 From QV.lib Require Import Prelude FinSum DFT DFT2 DFT_Inst.
 From QV.model Require Import C13_Model.
 From QV.proof Require Import C13_Proofs C13_Proofs_Est C13_Proofs_Swap C13_Proofs_DFT C13_Proofs_Inst.
+From QV.proof Require Import C13_Proofs_CS C13_Proofs_CSInst C13_Proofs_TSwap.
 Local Close Scope Q_scope.
 
 (* ============================================================================ correlation *)
@@ -501,3 +502,376 @@ Example C13_shipped_mask_biased :
   | _, _ => false
   end = true.
 Proof. exact shipped_mask_biased. Qed.
+
+
+(* ============================================================================================
+   ROUND 3.  Vocabulary (proof/C13_Proofs_CS.v, proof/C13_Proofs_TSwap.v):
+     re is now also assumed additive and positive on norms: 0 <= re (z conj z); "definite" is
+       re (z conj z) == 0 -> z = 0 (used for strictness only).  All satisfiable together with the
+       earlier hypotheses: Example C13_nonvacuous_cs_setting.
+     shifted_img x j1 j2 n1 n2      x[(n1 + j1) mod N1, (n2 + j2) mod N2]
+     no_self_overlap x              no translate of the periodic cell other than the identity reproduces x
+     cc_spec ref im                 F_ref * conj(F_im): the spectrum handed to dft_upsample / upsampled_correlation_torch
+     np_window F up x y a b         real(kern_row @ F @ kern_col)[a, b]           (dft_upsample)
+     t_window F up c1 c2 a b        dftUpsample_torch(conj F, up, (c1, c2)).conj().real[a, b]
+     np_off up a = (a - du)/up, t_off up a = (a - gs)/up   offset of window sample a from the centre sample
+     frac_shift_differs X d1 d2     translating the image with spectrum X by (d1, d2) pixels changes it:
+                                    some X[k,l] * E(f_k d1 / N1) * E(f_l d2 / N2) <> X[k,l]
+     np_offsets_distinct X up / t_offsets_distinct X up    ... for the offset of every non-centre window sample
+     E is additionally assumed unit-modulus: E q * conj (E q) = 1
+     negc_e n up e t t'             t' is congruent to -t + e/up modulo n
+   ============================================================================================ *)
+
+(* Cauchy-Schwarz: the (real part of the) circular autocorrelation of ANY image, real or complex,
+   on every grid, is bounded by its value at the origin *)
+Theorem C13_autocorr_cauchy_schwarz :
+  forall (R : Type) (rO rI : R) (radd rmul rsub : R -> R -> R) (ropp : R -> R),
+    ring_theory rO rI radd rmul rsub ropp eq ->
+    forall conj : R -> R, conj_ok radd rmul conj ->
+    forall (N1 : nat) (w1 : Z -> R) (Ninv1 : R) (N2 : nat) (w2 : Z -> R) (Ninv2 : R),
+    root_ok rO rI radd rmul conj N1 w1 Ninv1 -> root_ok rO rI radd rmul conj N2 w2 Ninv2 ->
+    forall re : R -> Q, (forall z : R, (re (conj z) == re z)%Q) ->
+    (forall a b : R, (re (radd a b) == re a + re b)%Q) ->
+    (forall z : R, (0 <= re (rmul z (conj z)))%Q) ->
+    forall (x : nat -> nat -> R) (j1 j2 : nat),
+    (acorrQ R rO radd rmul conj N1 N2 re x j1 j2 <= acorrQ R rO radd rmul conj N1 N2 re x 0 0)%Q.
+Proof. exact autocorr_le_origin. Qed.
+Print Assumptions C13_autocorr_cauchy_schwarz.
+
+(* ... with equality exactly when the translate by that offset reproduces the image *)
+Theorem C13_autocorr_strict :
+  forall (R : Type) (rO rI : R) (radd rmul rsub : R -> R -> R) (ropp : R -> R),
+    ring_theory rO rI radd rmul rsub ropp eq ->
+    forall conj : R -> R, conj_ok radd rmul conj ->
+    forall (N1 : nat) (w1 : Z -> R) (Ninv1 : R) (N2 : nat) (w2 : Z -> R) (Ninv2 : R),
+    root_ok rO rI radd rmul conj N1 w1 Ninv1 -> root_ok rO rI radd rmul conj N2 w2 Ninv2 ->
+    forall re : R -> Q, (forall z : R, (re (conj z) == re z)%Q) ->
+    (forall a b : R, (re (radd a b) == re a + re b)%Q) ->
+    (forall z : R, (0 <= re (rmul z (conj z)))%Q) ->
+    (forall z : R, (re (rmul z (conj z)) == 0)%Q -> z = rO) ->
+    forall (x : nat -> nat -> R) (j1 j2 : nat),
+    ((exists n1 n2, n1 < N1 /\ n2 < N2 /\ shifted_img R N1 N2 x j1 j2 n1 n2 <> x n1 n2) ->
+     (acorrQ R rO radd rmul conj N1 N2 re x j1 j2 < acorrQ R rO radd rmul conj N1 N2 re x 0 0)%Q) /\
+    ((forall n1 n2, n1 < N1 -> n2 < N2 -> shifted_img R N1 N2 x j1 j2 n1 n2 = x n1 n2) ->
+     (acorrQ R rO radd rmul conj N1 N2 re x j1 j2 == acorrQ R rO radd rmul conj N1 N2 re x 0 0)%Q).
+Proof.
+  exact (fun R rO rI radd rmul rsub ropp Rth conj Cok N1 w1 Ninv1 N2 w2 Ninv2 Rok1 Rok2 re rc ra rn rd x j1 j2 =>
+           Logic.conj (autocorr_lt_origin R rO rI radd rmul rsub ropp Rth conj Cok N1 w1 Ninv1 N2 w2 Ninv2 Rok1 Rok2
+                         re rc ra rn rd x j1 j2)
+                      (autocorr_eq_origin R rO rI radd rmul rsub ropp Rth conj Cok N1 w1 Ninv1 N2 w2 Ninv2 Rok1 Rok2
+                         re x j1 j2)).
+Qed.
+Print Assumptions C13_autocorr_strict.
+
+(* hence the hypothesis "unique autocorrelation peak" of the registration theorems is exactly
+   "no other shift of the periodic cell reproduces the image": sufficient, and necessary *)
+Theorem C13_unique_peak_iff_no_self_overlap :
+  forall (R : Type) (rO rI : R) (radd rmul rsub : R -> R -> R) (ropp : R -> R),
+    ring_theory rO rI radd rmul rsub ropp eq ->
+    forall conj : R -> R, conj_ok radd rmul conj ->
+    forall (N1 : nat) (w1 : Z -> R) (Ninv1 : R) (N2 : nat) (w2 : Z -> R) (Ninv2 : R),
+    root_ok rO rI radd rmul conj N1 w1 Ninv1 -> root_ok rO rI radd rmul conj N2 w2 Ninv2 ->
+    forall re : R -> Q, (forall z : R, (re (conj z) == re z)%Q) ->
+    (forall a b : R, (re (radd a b) == re a + re b)%Q) ->
+    (forall z : R, (0 <= re (rmul z (conj z)))%Q) ->
+    (forall z : R, (re (rmul z (conj z)) == 0)%Q -> z = rO) ->
+    forall x : nat -> nat -> R,
+    (no_self_overlap R N1 N2 x -> uniq_max N1 N2 (acorrQ R rO radd rmul conj N1 N2 re x) 0 0) /\
+    (forall j1 j2, j1 < N1 -> j2 < N2 -> (j1, j2) <> (0, 0) ->
+       (forall n1 n2, n1 < N1 -> n2 < N2 -> shifted_img R N1 N2 x j1 j2 n1 n2 = x n1 n2) ->
+       ~ uniq_max N1 N2 (acorrQ R rO radd rmul conj N1 N2 re x) 0 0).
+Proof.
+  exact (fun R rO rI radd rmul rsub ropp Rth conj Cok N1 w1 Ninv1 N2 w2 Ninv2 Rok1 Rok2 re rc ra rn rd x =>
+           Logic.conj (unique_peak_of_no_self_overlap R rO rI radd rmul rsub ropp Rth conj Cok N1 w1 Ninv1 N2 w2 Ninv2
+                         Rok1 Rok2 re rc ra rn rd x)
+                      (self_overlap_ties_peak R rO rI radd rmul rsub ropp Rth conj Cok N1 w1 Ninv1 N2 w2 Ninv2
+                         Rok1 Rok2 re x)).
+Qed.
+Print Assumptions C13_unique_peak_iff_no_self_overlap.
+
+(* the integer-shift theorems with the peak hypothesis reduced to no_self_overlap *)
+Theorem C13_integer_shift_exact_numpy_cs :
+  forall (R : Type) (rO rI : R) (radd rmul rsub : R -> R -> R) (ropp : R -> R),
+    ring_theory rO rI radd rmul rsub ropp eq ->
+    forall conj : R -> R, conj_ok radd rmul conj ->
+    forall (N1 : nat) (w1 : Z -> R) (Ninv1 : R) (N2 : nat) (w2 : Z -> R) (Ninv2 : R),
+    root_ok rO rI radd rmul conj N1 w1 Ninv1 -> root_ok rO rI radd rmul conj N2 w2 Ninv2 ->
+    forall re : R -> Q, (forall z : R, (re (conj z) == re z)%Q) ->
+    (forall a b : R, (re (radd a b) == re a + re b)%Q) ->
+    (forall z : R, (0 <= re (rmul z (conj z)))%Q) ->
+    (forall z : R, (re (rmul z (conj z)) == 0)%Q -> z = rO) ->
+    forall (ref im : nat -> nat -> R) (s1 s2 : Z) (ms : option Q) (up : nat) (ups : Q -> Q -> nat -> nat -> Q),
+    2 <= N1 -> 2 <= N2 ->
+    same_on_grid R N1 N2 im (roll2 N1 N2 s1 s2 ref) ->
+    no_self_overlap R N1 N2 ref ->
+    admits N1 N2 ms (ccQ R rO radd rmul conj N1 w1 Ninv1 N2 w2 Ninv2 re ref im) (wrapi N1 (- s1)) (wrapi N2 (- s2)) ->
+    (2 <= up -> forall x y : Q, (x == qN (wrapi N1 (- s1)))%Q -> (y == qN (wrapi N2 (- s2)))%Q ->
+                win_centred (np_win up) (du up) (ups x y)) ->
+    exists a b : Q,
+      np_shift N1 N2 ms up (ccQ R rO radd rmul conj N1 w1 Ninv1 N2 w2 Ninv2 re ref im) ups = Some (a, b) /\
+      exists t1 t2 : Z,
+        (a == inject_Z t1)%Q /\ (b == inject_Z t2)%Q /\
+        (- Z.of_nat N1 <= 2 * t1 < Z.of_nat N1)%Z /\ (- Z.of_nat N2 <= 2 * t2 < Z.of_nat N2)%Z /\
+        ((t1 + s1) mod Z.of_nat N1)%Z = 0%Z /\ ((t2 + s2) mod Z.of_nat N2)%Z = 0%Z /\
+        (forall n1 n2 : nat, n1 < N1 -> n2 < N2 ->
+           fmul2 rO radd rmul N1 w1 Ninv1 N2 w2 Ninv2 (ramp R rmul N1 w1 N2 w2 t1 t2) im n1 n2 = ref n1 n2).
+Proof. exact registration_integer_numpy_cs. Qed.
+Print Assumptions C13_integer_shift_exact_numpy_cs.
+
+Theorem C13_integer_shift_exact_torch_cs :
+  forall (R : Type) (rO rI : R) (radd rmul rsub : R -> R -> R) (ropp : R -> R),
+    ring_theory rO rI radd rmul rsub ropp eq ->
+    forall conj : R -> R, conj_ok radd rmul conj ->
+    forall (N1 : nat) (w1 : Z -> R) (Ninv1 : R) (N2 : nat) (w2 : Z -> R) (Ninv2 : R),
+    root_ok rO rI radd rmul conj N1 w1 Ninv1 -> root_ok rO rI radd rmul conj N2 w2 Ninv2 ->
+    forall re : R -> Q, (forall z : R, (re (conj z) == re z)%Q) ->
+    (forall a b : R, (re (radd a b) == re a + re b)%Q) ->
+    (forall z : R, (0 <= re (rmul z (conj z)))%Q) ->
+    (forall z : R, (re (rmul z (conj z)) == 0)%Q -> z = rO) ->
+    forall (ref im : nat -> nat -> R) (s1 s2 : Z) (up : nat) (ups : Q -> Q -> nat -> nat -> Q),
+    2 <= N1 -> 2 <= N2 ->
+    same_on_grid R N1 N2 im (roll2 N1 N2 s1 s2 ref) ->
+    no_self_overlap R N1 N2 ref ->
+    (3 <= up -> forall cx cy : Q,
+        (cx == qN (t_gs up) - qN up * qN (wrapi N1 (- s1)))%Q ->
+        (cy == qN (t_gs up) - qN up * qN (wrapi N2 (- s2)))%Q ->
+        win_centred (t_win up) (t_gs up) (ups cx cy)) ->
+    exists a b : Q,
+      torch_shift N1 N2 up (ccQ R rO radd rmul conj N1 w1 Ninv1 N2 w2 Ninv2 re ref im) ups = Some (a, b) /\
+      exists t1 t2 : Z,
+        (a == inject_Z t1)%Q /\ (b == inject_Z t2)%Q /\
+        (- Z.of_nat N1 <= 2 * t1 < Z.of_nat N1)%Z /\ (- Z.of_nat N2 <= 2 * t2 < Z.of_nat N2)%Z /\
+        ((t1 + s1) mod Z.of_nat N1)%Z = 0%Z /\ ((t2 + s2) mod Z.of_nat N2)%Z = 0%Z /\
+        (forall n1 n2 : nat, n1 < N1 -> n2 < N2 ->
+           fmul2 rO radd rmul N1 w1 Ninv1 N2 w2 Ninv2 (ramp R rmul N1 w1 N2 w2 t1 t2) im n1 n2 = ref n1 n2).
+Proof. exact registration_integer_torch_cs. Qed.
+Print Assumptions C13_integer_shift_exact_torch_cs.
+
+(* the upsampled window of two identical images, as the kernels of dft_upsample compute it from
+   cc = F_ref conj(F_im), placed on the refined peak (0, 0): EVERY sample is bounded by the centre
+   sample du (Cauchy-Schwarz in the Fourier domain; E only needs unit modulus) — every factor *)
+Theorem C13_identical_window_le_centre_numpy :
+  forall (R : Type) (rO rI : R) (radd rmul rsub : R -> R -> R) (ropp : R -> R),
+    ring_theory rO rI radd rmul rsub ropp eq ->
+    forall conj : R -> R, conj_ok radd rmul conj ->
+    forall (N1 : nat) (w1 : Z -> R) (Ninv1 : R) (N2 : nat) (w2 : Z -> R) (Ninv2 : R),
+    root_ok rO rI radd rmul conj N1 w1 Ninv1 -> root_ok rO rI radd rmul conj N2 w2 Ninv2 ->
+    forall re : R -> Q, (forall z : R, (re (conj z) == re z)%Q) ->
+    (forall a b : R, (re (radd a b) == re a + re b)%Q) ->
+    (forall z : R, (0 <= re (rmul z (conj z)))%Q) ->
+    forall E : Q -> R, (forall p q : Q, (p == q)%Q -> E p = E q) ->
+    (forall z : Z, E (inject_Z z / qN N1)%Q = w1 (- z)%Z) ->
+    (forall q : Q, rmul (E q) (conj (E q)) = rI) ->
+    forall (ref im : nat -> nat -> R) (up : nat) (x y : Q) (a b : nat),
+    0 < up -> same_on_grid R N1 N2 im ref -> (x == 0)%Q -> (y == 0)%Q ->
+    (np_window R rO radd rmul N1 N2 re E (cc_spec R rO radd rmul conj N1 w1 N2 w2 ref im) up x y a b
+     <= np_window R rO radd rmul N1 N2 re E (cc_spec R rO radd rmul conj N1 w1 N2 w2 ref im) up x y (du up) (du up))%Q.
+Proof. exact np_window_identical_le. Qed.
+Print Assumptions C13_identical_window_le_centre_numpy.
+
+(* the same for the conj-in / conj-out window of dftUpsample_torch with upsampleCenter = globalShift *)
+Theorem C13_identical_window_le_centre_torch :
+  forall (R : Type) (rO rI : R) (radd rmul rsub : R -> R -> R) (ropp : R -> R),
+    ring_theory rO rI radd rmul rsub ropp eq ->
+    forall conj : R -> R, conj_ok radd rmul conj ->
+    forall (N1 : nat) (w1 : Z -> R) (Ninv1 : R) (N2 : nat) (w2 : Z -> R) (Ninv2 : R),
+    root_ok rO rI radd rmul conj N1 w1 Ninv1 -> root_ok rO rI radd rmul conj N2 w2 Ninv2 ->
+    forall re : R -> Q, (forall z : R, (re (conj z) == re z)%Q) ->
+    (forall a b : R, (re (radd a b) == re a + re b)%Q) ->
+    (forall z : R, (0 <= re (rmul z (conj z)))%Q) ->
+    forall E : Q -> R, (forall p q : Q, (p == q)%Q -> E p = E q) ->
+    (forall q : Q, conj (E q) = E (- q)%Q) ->
+    (forall z : Z, E (inject_Z z / qN N1)%Q = w1 (- z)%Z) ->
+    (forall q : Q, rmul (E q) (conj (E q)) = rI) ->
+    forall (ref im : nat -> nat -> R) (up : nat) (c1 c2 : Q) (a b : nat),
+    0 < up -> same_on_grid R N1 N2 im ref -> (c1 == qN (t_gs up))%Q -> (c2 == qN (t_gs up))%Q ->
+    (t_window R rO radd rmul conj N1 N2 re E (cc_spec R rO radd rmul conj N1 w1 N2 w2 ref im) up c1 c2 a b
+     <= t_window R rO radd rmul conj N1 N2 re E (cc_spec R rO radd rmul conj N1 w1 N2 w2 ref im) up c1 c2 (t_gs up) (t_gs up))%Q.
+Proof. exact t_window_identical_le. Qed.
+Print Assumptions C13_identical_window_le_centre_torch.
+
+(* identical images give (0, 0) for EVERY upsampling factor and every max_shift > 0, with the
+   window COMPUTED by the kernels (no hypothesis on window values).  Hypotheses on the image only:
+   no integer translate reproduces it, and (for up >= 2) no translate by the sub-pixel offset of a
+   non-centre window sample reproduces it. *)
+Theorem C13_identical_zero_numpy_derived :
+  forall (R : Type) (rO rI : R) (radd rmul rsub : R -> R -> R) (ropp : R -> R),
+    ring_theory rO rI radd rmul rsub ropp eq ->
+    forall conj : R -> R, conj_ok radd rmul conj ->
+    forall (N1 : nat) (w1 : Z -> R) (Ninv1 : R) (N2 : nat) (w2 : Z -> R) (Ninv2 : R),
+    root_ok rO rI radd rmul conj N1 w1 Ninv1 -> root_ok rO rI radd rmul conj N2 w2 Ninv2 ->
+    forall re : R -> Q, (forall z : R, (re (conj z) == re z)%Q) ->
+    (forall a b : R, (re (radd a b) == re a + re b)%Q) ->
+    (forall z : R, (0 <= re (rmul z (conj z)))%Q) ->
+    (forall z : R, (re (rmul z (conj z)) == 0)%Q -> z = rO) ->
+    forall E : Q -> R, (forall p q : Q, (p == q)%Q -> E p = E q) ->
+    (forall q : Q, conj (E q) = E (- q)%Q) ->
+    (forall z : Z, E (inject_Z z / qN N1)%Q = w1 (- z)%Z) ->
+    (forall q : Q, rmul (E q) (conj (E q)) = rI) ->
+    forall (ref im : nat -> nat -> R) (ms : option Q) (up : nat),
+    2 <= N1 -> 2 <= N2 ->
+    same_on_grid R N1 N2 im ref ->
+    no_self_overlap R N1 N2 ref ->
+    match ms with Some m => (0 < m * m)%Q | None => True end ->
+    (2 <= up -> np_offsets_distinct R rmul N1 N2 E (dft2 rO radd rmul N1 w1 N2 w2 ref) up) ->
+    exists a b : Q,
+      np_shift N1 N2 ms up (ccQ R rO radd rmul conj N1 w1 Ninv1 N2 w2 Ninv2 re ref im)
+               (np_window R rO radd rmul N1 N2 re E (cc_spec R rO radd rmul conj N1 w1 N2 w2 ref im) up) = Some (a, b) /\
+      (a == 0)%Q /\ (b == 0)%Q.
+Proof. exact registration_identical_numpy_cs. Qed.
+Print Assumptions C13_identical_zero_numpy_derived.
+
+Theorem C13_identical_zero_torch_derived :
+  forall (R : Type) (rO rI : R) (radd rmul rsub : R -> R -> R) (ropp : R -> R),
+    ring_theory rO rI radd rmul rsub ropp eq ->
+    forall conj : R -> R, conj_ok radd rmul conj ->
+    forall (N1 : nat) (w1 : Z -> R) (Ninv1 : R) (N2 : nat) (w2 : Z -> R) (Ninv2 : R),
+    root_ok rO rI radd rmul conj N1 w1 Ninv1 -> root_ok rO rI radd rmul conj N2 w2 Ninv2 ->
+    forall re : R -> Q, (forall z : R, (re (conj z) == re z)%Q) ->
+    (forall a b : R, (re (radd a b) == re a + re b)%Q) ->
+    (forall z : R, (0 <= re (rmul z (conj z)))%Q) ->
+    (forall z : R, (re (rmul z (conj z)) == 0)%Q -> z = rO) ->
+    forall E : Q -> R, (forall p q : Q, (p == q)%Q -> E p = E q) ->
+    (forall q : Q, conj (E q) = E (- q)%Q) ->
+    (forall z : Z, E (inject_Z z / qN N1)%Q = w1 (- z)%Z) ->
+    (forall q : Q, rmul (E q) (conj (E q)) = rI) ->
+    forall (ref im : nat -> nat -> R) (up : nat),
+    2 <= N1 -> 2 <= N2 ->
+    same_on_grid R N1 N2 im ref ->
+    no_self_overlap R N1 N2 ref ->
+    (3 <= up -> t_offsets_distinct R rmul N1 N2 E (dft2 rO radd rmul N1 w1 N2 w2 ref) up) ->
+    exists a b : Q,
+      torch_shift N1 N2 up (ccQ R rO radd rmul conj N1 w1 Ninv1 N2 w2 Ninv2 re ref im)
+                  (t_window R rO radd rmul conj N1 N2 re E (cc_spec R rO radd rmul conj N1 w1 N2 w2 ref im) up) = Some (a, b) /\
+      (a == 0)%Q /\ (b == 0)%Q.
+Proof. exact registration_identical_torch_cs. Qed.
+Print Assumptions C13_identical_zero_torch_derived.
+
+(* ============================================================================ torch swap, factors > 2 *)
+(* the torch window has W = ceil(1.5 up) samples around index gs = floor(W/2); W is odd (symmetric
+   window) exactly for up = 2, 3 (mod 4) *)
+Theorem C13_torch_window_parity :
+  forall up : nat, Nat.odd (t_win up) = true <-> (up mod 4 = 2 \/ up mod 4 = 3).
+Proof. exact t_win_odd_iff. Qed.
+Print Assumptions C13_torch_window_parity.
+
+(* what holds for EVERY factor > 2: the two calls round their half-pixel estimates to xs and
+   xs' = -xs + e/up (mod size) with e = 0 whenever size * factor is even; if both window maxima
+   are interior, sit at mirrored indices r + r' = 2 gs - e, and the two 3-point crosses around
+   them are mirror images, the results are negated (mod size) *)
+Theorem C13_swap_torch_upsampled :
+  forall (M N up : nat) (cc cc' : nat -> nat -> Q) (ups ups' : Q -> Q -> nat -> nat -> Q) (p q : nat),
+  2 <= M -> 2 <= N -> 3 <= up -> uniq_max M N cc p q -> reflected_of M N cc cc' ->
+  exists (xs ys xs' ys' : Q) (e1 e2 : Z),
+    negc_e M up e1 xs xs' /\ negc_e N up e2 ys ys' /\
+    (Z.even (Z.of_nat M * Z.of_nat up) = true -> e1 = 0%Z) /\
+    (Z.even (Z.of_nat N * Z.of_nat up) = true -> e2 = 0%Z) /\
+    forall r c r' c' : nat,
+      let W := t_win up in
+      let loc := ups (t_center up xs) (t_center up ys) in
+      let loc' := ups' (t_center up xs') (t_center up ys') in
+      uniq_max W W loc r c -> uniq_max W W loc' r' c' ->
+      (Z.of_nat r + Z.of_nat r' = 2 * Z.of_nat (t_gs up) - e1)%Z ->
+      (Z.of_nat c + Z.of_nat c' = 2 * Z.of_nat (t_gs up) - e2)%Z ->
+      1 <= r -> r + 1 < W -> 1 <= c -> c + 1 < W ->
+      1 <= r' -> r' + 1 < W -> 1 <= c' -> c' + 1 < W ->
+      (loc' (r' - 1)%nat c' == loc (r + 1)%nat c)%Q -> (loc' r' c' == loc r c)%Q ->
+      (loc' (r' + 1)%nat c' == loc (r - 1)%nat c)%Q ->
+      (loc' r' (c' - 1)%nat == loc r (c + 1)%nat)%Q -> (loc' r' (c' + 1)%nat == loc r (c - 1)%nat)%Q ->
+      exists a b a' b' : Q,
+        torch_shift M N up cc ups = Some (a, b) /\ torch_shift M N up cc' ups' = Some (a', b') /\
+        neg_mod M a a' /\ neg_mod N b b'.
+Proof. exact torch_swap_upsampled. Qed.
+Print Assumptions C13_swap_torch_upsampled.
+
+(* symmetric window (odd ceil(1.5 up)) and even size * factor: the NumPy statement carries over —
+   negated for every unique window maximum, the border fallback included *)
+Theorem C13_swap_negates_torch_symmetric :
+  forall (M N up : nat) (cc cc' : nat -> nat -> Q) (ups ups' : Q -> Q -> nat -> nat -> Q) (p q : nat),
+  2 <= M -> 2 <= N -> 3 <= up -> Nat.odd (t_win up) = true ->
+  Z.even (Z.of_nat M * Z.of_nat up) = true -> Z.even (Z.of_nat N * Z.of_nat up) = true ->
+  uniq_max M N cc p q -> reflected_of M N cc cc' ->
+  (forall xs ys xs' ys' : Q, negc M xs xs' -> negc N ys ys' ->
+     win_reflected (t_win up) (ups (t_center up xs) (t_center up ys)) (ups' (t_center up xs') (t_center up ys'))) ->
+  (forall cx cy : Q, exists lx ly : nat, uniq_max (t_win up) (t_win up) (ups cx cy) lx ly) ->
+  exists a b a' b' : Q,
+    torch_shift M N up cc ups = Some (a, b) /\ torch_shift M N up cc' ups' = Some (a', b') /\
+    neg_mod M a a' /\ neg_mod N b b'.
+Proof. exact torch_swap_negates_symmetric. Qed.
+Print Assumptions C13_swap_negates_torch_symmetric.
+
+(* even window (up = 4: 6 samples at offsets -3..2): a window maximum on the border is NOT negated,
+   although the two windows are exact mirror images wherever they overlap: the swapped call cannot
+   see the offset +3/4.  (On the implementation the maximum is interior: the half-pixel estimate
+   is within 1/4 pixel of the peak; this states what the asymmetric window does at its border.) *)
+Theorem C13_swap_torch_even_window_border_refuted :
+  reflected_of 4 4 ex_cc ex_cc /\ uniq_max 4 4 ex_cc 0 0 /\
+  (forall (x y x' y' : Q) (a b a' b' : nat), a < 6 -> b < 6 -> a' < 6 -> b' < 6 -> a + a' = 6 -> b + b' = 6 ->
+     (ex_ups' x' y' a' b' == ex_ups x y a b)%Q) /\
+  match torch_shift 4 4 4 ex_cc ex_ups with
+  | Some (a, b) => Qeq_bool a (-(3 # 4)) && Qeq_bool b 0 | None => false end = true /\
+  match torch_shift 4 4 4 ex_cc ex_ups' with
+  | Some (a, b) => Qeq_bool a (1 # 2) && Qeq_bool b 0 | None => false end = true /\
+  ~ neg_mod 4 (-(3 # 4)) (1 # 2).
+Proof. exact torch_swap_even_window_edge. Qed.
+Print Assumptions C13_swap_torch_even_window_border_refuted.
+
+(* ============================================================================ non-vacuity, round 3 *)
+(* every hypothesis of the Cauchy-Schwarz layer holds for the Gaussian rationals, N1 = N2 = 4, with a
+   character that is unit-modulus everywhere and differs from 1 off the pixel grid *)
+Example C13_nonvacuous_cs_setting :
+  cs_setting_ok C c0 c1 cadd cmul csub copp cconj 4 w4 quarter 4 w4 quarter reC E4u.
+Proof. exact cs_setting_instance. Qed.
+
+(* ref4 has no self-overlap (so C13_unique_peak_iff_no_self_overlap yields its unique peak), the
+   row-periodic per4 has one and its peak is tied *)
+Example C13_nonvacuous_no_self_overlap :
+  no_self_overlap C 4 4 ref4 /\ uniq_max 4 4 (acorrQ C c0 cadd cmul cconj 4 4 reC ref4) 0 0.
+Proof. exact (Logic.conj ref4_no_self_overlap inst_unique_peak_cs). Qed.
+
+Example C13_nonvacuous_self_overlap_tied : ~ uniq_max 4 4 (acorrQ C c0 cadd cmul cconj 4 4 reC per4) 0 0.
+Proof. exact per4_tied. Qed.
+
+(* the derived identical-image theorems applied to ref4 with the window computed by the kernels:
+   all hypotheses (no self-overlap, distinct sub-pixel offsets for up = 2 resp. 3) discharged *)
+Example C13_nonvacuous_identical_zero_numpy_derived :
+  exists a b : Q,
+    np_shift 4 4 (Some 1%Q) 2 (ccQ C c0 cadd cmul cconj 4 w4 quarter 4 w4 quarter reC ref4 ref4)
+             (np_window C c0 cadd cmul 4 4 reC E4u (cc_spec C c0 cadd cmul cconj 4 w4 4 w4 ref4 ref4) 2) = Some (a, b) /\
+    (a == 0)%Q /\ (b == 0)%Q.
+Proof. exact inst_identical_numpy_cs. Qed.
+
+Example C13_nonvacuous_identical_zero_torch_derived :
+  exists a b : Q,
+    torch_shift 4 4 3 (ccQ C c0 cadd cmul cconj 4 w4 quarter 4 w4 quarter reC ref4 ref4)
+                (t_window C c0 cadd cmul cconj 4 4 reC E4u (cc_spec C c0 cadd cmul cconj 4 w4 4 w4 ref4 ref4) 3) = Some (a, b) /\
+    (a == 0)%Q /\ (b == 0)%Q.
+Proof. exact inst_identical_torch_cs. Qed.
+
+(* torch swap with factors > 2: an even window (up = 4) with interior maxima, and a symmetric
+   window (up = 3) with a border maximum; values -13/56 <-> 13/56 and -2/3 <-> 2/3 *)
+Example C13_nonvacuous_swap_torch_upsampled :
+  exists a b a' b' : Q,
+    torch_shift 4 4 4 ex_cc ex_ups2 = Some (a, b) /\ torch_shift 4 4 4 ex_cc ex_ups2' = Some (a', b') /\
+    neg_mod 4 a a' /\ neg_mod 4 b b'.
+Proof. exact inst_torch_swap_upsampled. Qed.
+
+Example C13_nonvacuous_swap_torch_upsampled_value :
+  match torch_shift 4 4 4 ex_cc ex_ups2, torch_shift 4 4 4 ex_cc ex_ups2' with
+  | Some (a, b), Some (a', b') => Qeq_bool a (-(13 # 56)) && Qeq_bool a' (13 # 56) && Qeq_bool b 0 && Qeq_bool b' 0
+  | _, _ => false
+  end = true.
+Proof. exact inst_torch_swap_upsampled_value. Qed.
+
+Example C13_nonvacuous_swap_torch_symmetric :
+  exists a b a' b' : Q,
+    torch_shift 4 4 3 ex_cc ex_edge5 = Some (a, b) /\ torch_shift 4 4 3 ex_cc ex_edge5' = Some (a', b') /\
+    neg_mod 4 a a' /\ neg_mod 4 b b'.
+Proof. exact inst_torch_swap_symmetric. Qed.
+
+Example C13_nonvacuous_swap_torch_symmetric_value :
+  match torch_shift 4 4 3 ex_cc ex_edge5, torch_shift 4 4 3 ex_cc ex_edge5' with
+  | Some (a, b), Some (a', b') => Qeq_bool a (-(2 # 3)) && Qeq_bool a' (2 # 3) && Qeq_bool b 0 && Qeq_bool b' 0
+  | _, _ => false
+  end = true.
+Proof. exact inst_torch_swap_symmetric_value. Qed.
